@@ -177,11 +177,73 @@ pub fn real_push(sum: &mut Summary, var: usize, line: &str) {
     }
 }
 
+/// Does getter `var` return exactly `want`?  (No copies: lists of thousands of lines
+/// are compared after every operation of a history.)
+pub fn real_eq(sum: &Summary, var: usize, want: Option<&Val>) -> bool {
+    fn s(x: Option<&str>, want: Option<&Val>) -> bool {
+        match (x, want) {
+            (None, None) => true,
+            (Some(a), Some(Val::S(b))) => a == b,
+            _ => false,
+        }
+    }
+    fn a(x: Option<&[String]>, want: Option<&Val>) -> bool {
+        match (x, want) {
+            (None, None) => true,
+            (Some(a), Some(Val::A(b))) => a == &b[..],
+            _ => false,
+        }
+    }
+    fn i(x: Option<i64>, want: Option<&Val>) -> bool {
+        match (x, want) {
+            (None, None) => true,
+            (Some(a), Some(Val::I(b))) => a == *b,
+            _ => false,
+        }
+    }
+    match var {
+        0 => s(sum.build_date(), want),
+        1 => s(sum.categories(), want),
+        2 => s(sum.comment(), want),
+        3 => a(sum.conflicts(), want),
+        4 => a(sum.depends(), want),
+        5 => a(sum.description(), want),
+        6 => s(sum.file_cksum(), want),
+        7 => s(sum.file_name(), want),
+        8 => i(sum.file_size(), want),
+        9 => s(sum.homepage(), want),
+        10 => s(sum.license(), want),
+        11 => s(sum.machine_arch(), want),
+        12 => s(sum.opsys(), want),
+        13 => s(sum.os_version(), want),
+        14 => s(sum.pkg_options(), want),
+        15 => s(sum.pkgname(), want),
+        16 => s(sum.pkgpath(), want),
+        17 => s(sum.pkgtools_version(), want),
+        18 => s(sum.prev_pkgpath(), want),
+        19 => a(sum.provides(), want),
+        20 => a(sum.requires(), want),
+        21 => i(sum.size_pkg(), want),
+        22 => a(sum.supersedes(), want),
+        _ => unreachable!(),
+    }
+}
+
+/// Call every getter once (their results are dropped): "returns normally".
+pub fn touch_all_getters(sum: &Summary) {
+    for v in 0..VARS.len() {
+        let _ = real_eq(sum, v, None);
+    }
+}
+
 /// Compare a real Summary with a model entry through all 23 getters.
 pub fn compare(sum: &Summary, model: &Entry) -> Result<(), String> {
     for i in 0..VARS.len() {
-        let got = real_get(sum, i);
         let want = model.get(&i);
+        if real_eq(sum, i, want) {
+            continue;
+        }
+        let got = real_get(sum, i);
         if got.as_ref() != want {
             return Err(format!(
                 "{}: getter returns {:?}, model has {:?}",
